@@ -92,6 +92,11 @@ def misc_cases():
     # returns
     T('ret-missing-value', "int f() { return; }\n" + P % '', False)
     T('ret-superfluous', "empty f() { return 1; }\n" + P % '', False)
+    T('ret-superfluous-empty-call', "empty g() { }\nempty f() { return g(); }\n" + P % 'f();', False)
+    T('ret-superfluous-builtin', "empty f() { return writeln(); }\n" + P % 'f();', False)
+    T('ret-superfluous-defeat-call', "empty !d() { }\nempty !f() { return !d(); }\n" + P % 'try { !f(); } undo { }', False)
+    T('ret-superfluous-var', "empty f(int a) { return a; }\n" + P % 'f(1);', False)
+    T('ret-superfluous-in-you', "empty @f() { return 0; }\n" + P % '@f();', False)
     T('ret-empty-ok', "empty f() { return; }\n" + P % 'f();', True)
     T('ret-missing-stmt', "int f(int a) { if (a > 0) { return 1; } }\n" + P % '', False)
     T('ret-narrow-nonliteral', "byte f(int a) { return a; }\n" + P % '', False)
@@ -142,6 +147,12 @@ def misc_cases():
     T('empty-literal-write', P % 'write([]);', True)
     T('mixed-literal', P % 'int[] a = [1, true];', False)
     T('const-elem-assign', P % 'const int[] a = [1, 2]; a[0] = 3;', False)
+    for opn in ('+=', '-=', '*=', '/=', '%='):
+        T('const-elem-compound-local-' + opn, P % ('const int[] a = [1, 2]; a[0] %s 3;' % opn), False)
+        T('const-elem-compound-param-' + opn, "empty f(const int[] a, int i) { a[i] %s 1; }\n" % opn + P % 'f([1, 2], 0);', False)
+        T('const-elem-compound-global-' + opn, "const byte[] g = [1, 2];\n" + P % ('g[1] %s 2;' % opn), False)
+        T('string-elem-compound-' + opn, P % ('string s = "ab"; s[0] %s 1;' % opn), False)
+        T('mutable-elem-compound-' + opn, "int[] gm = [4, 5];\n" + P % ('int[] a = [1, 2]; a[0] %s 3; gm[1] %s a[0]; byte[] b = [1, 2]; b[1] %s 1;' % (opn, opn, opn)), True)
     T('const-elem-compound', P % 'const byte[] a = [1, 2]; a[0] += 3;', False)
     T('mutable-elem-assign', P % 'int[] a = [1, 2]; a[0] = 3; a[1] *= 2;', True)
     T('array-reassign', P % 'int[] a = [1]; int[] b = [2]; a = b;', False)
@@ -323,7 +334,7 @@ def main():
     rep = Report(PID, 'proof', 'CrossHair symbolic execution of the typechecker methods on AST objects built from symbolic selectors, against a transcription of the README typing rules')
     quick = rep.tier == 'quick'
     from hv import chx
-    chx.run_into(rep, 'c07', per_condition_timeout=300 if quick else 1200)
+    chx.run_into(rep, 'c07', per_condition_timeout=700 if quick else 1200)
     from hv import tcspec as S
     tasks = []
 
